@@ -4,8 +4,8 @@
   Spec   : `truthful prog base M rel target expl` (ILV.Model.ProvSpec): a tuple some clause derives must
            not have every clause reported blocked; a tuple no clause derives needs, for every clause, a
            reported blocker that holds (`blockerHolds`).
-  Model  : `explainWhyNot` (ILV.Model.Prov) — mirror of explain_why_not run on the context that
-           `why_not_query` builds: rules + base data, **no derived data**; greedy (first match).
+  Model  : `explainWhyNot` (ILV.Model.Prov) — mirror of explain_why_not run on the context that the
+           repaired `why_not_query` builds: rules + base data + the engine's derived data; greedy (first match).
   The driver runs `truthful`/`blockerHolds` on the explanation the REAL `.why_not` returned.
 -/
 import ILV.Lemmas.ProvWhyNot
@@ -81,19 +81,21 @@ example : blockerHolds litBase [] litRule [.i32 1] [("P", .i64 2), ("X", .i32 1)
 example : blockerHolds litBase [] litRule [.i32 1] [("X", .i32 1)] (.atomFailed 0 "e" [.conc (.i32 1), .unb "P"]) = false := by decide
 example : blockerHolds litBase [] litRule [.i32 5] [("X", .i32 5)] (.atomFailed 0 "e" [.conc (.i32 5), .unb "P"]) = true := by decide
 
-/-- what `.why_not` answers in the model: the context has no derived data (handler.rs:684). -/
-def whyNot (prog : Program) (base : DB) (rel : String) (target : Tuple) : Option (List ClauseExpl) :=
-  explainWhyNot { rules := prog, base := base, derived := none } rel target
+/-- what `.why_not` answers in the model (repaired handler: the context carries the derived data, as
+    for `.why`). -/
+def whyNot (prog : Program) (base M : DB) (rel : String) (target : Tuple) : Option (List ClauseExpl) :=
+  explainWhyNot { rules := prog, base := base, derived := some M } rel target
 
 /-- **C23 at full strength about the model**: for every program of the fragment, the derived data
     being the perfect model, every relation with rules and every target, the explanation is truthful. -/
 def C23_statement : Prop :=
   ∀ (prog : Program) (base M : DB) (rel : String) (target : Tuple) (expl : List ClauseExpl),
-    prog.supported = true → pmEval prog base = some M → whyNot prog base rel target = some expl →
+    prog.supported = true → pmEval prog base = some M → whyNot prog base M rel target = some expl →
     truthful prog base M rel target expl = true
 
-/-! Witness 1 (known finding `greedy_first_match`): `g(X) <- e(X,Y), f(Y)`, `e = {(1,2),(1,3)}`,
-    `f = {3}`: `g(1)` is derived (through `Y = 3`), yet the only clause is reported blocked at `f(2)`. -/
+/-! Witness (known finding `greedy_first_match`, the one class that remains): `g(X) <- e(X,Y), f(Y)`,
+    `e = {(1,2),(1,3)}`, `f = {3}`: `g(1)` is derived (through `Y = 3`), yet the only clause is reported
+    blocked at `f(2)` — the trace takes the first match of each positive atom and never backtracks. -/
 def w1Prog : Program := [⟨⟨"g", [.var "X"]⟩, [.pos ⟨"e", [.var "X", .var "Y"]⟩, .pos ⟨"f", [.var "Y"]⟩]⟩]
 def w1Base : DB := [("e", [[.i64 1, .i64 2], [.i64 1, .i64 3]]), ("f", [[.i64 3]])]
 
@@ -105,57 +107,38 @@ theorem C23_refuted : ¬ C23_statement := by
   revert this
   decide
 
-/-! Witness 2 (known finding `derived_atom_invisible`): `p(X) <- f(X)`, `q(X) <- p(X), e(X,_)`, `f = {1}`,
-    `e = {}`: `q(1)` is not derived (no `e(1,_)`), but the reported blocker "no fact matches p(1)" does not
-    hold — `p(1)` is derived; the context simply contains no derived data. -/
+/-! The two former refutation witnesses (findings `derived_atom_invisible`, `neg_derived_invisible`,
+    fixed): with the derived data in the context the explanations are truthful. -/
 def w2Prog : Program :=
   [⟨⟨"p", [.var "X"]⟩, [.pos ⟨"f", [.var "X"]⟩]⟩, ⟨⟨"q", [.var "X"]⟩, [.pos ⟨"p", [.var "X"]⟩, .pos ⟨"e", [.var "X", .wild]⟩]⟩]
 def w2Base : DB := [("f", [[.i64 1]])]
-
-theorem C23_refuted_derived_invisible : ¬ C23_statement := by
-  intro h
-  have := h w2Prog w2Base [("p", [[.i64 1]])] "q" [.i32 1]
-    [{ idx := 0, ruleIdx := 1, bindings := [("X", .i32 1)], facts := [], blocker := some (.atomFailed 0 "p" [.conc (.i32 1)]) }]
-    (by decide) (by decide) (by decide)
-  revert this
-  decide
-
-/-! Witness 3 (known finding `neg_derived_invisible`): `dr(X) <- f(X)`, `p(X) <- f(X), !dr(X)`, `f = {1}`:
-    `p(1)` is not derived (`dr(1)` holds), yet the clause is reported without any blocker. -/
+example : (whyNot w2Prog w2Base [("p", [[.i64 1]])] "q" [.i32 1]).map (truthful w2Prog w2Base [("p", [[.i64 1]])] "q" [.i32 1]) = some true := by decide
 def w3Prog : Program :=
   [⟨⟨"dr", [.var "X"]⟩, [.pos ⟨"f", [.var "X"]⟩]⟩, ⟨⟨"p", [.var "X"]⟩, [.pos ⟨"f", [.var "X"]⟩, .neg ⟨"dr", [.var "X"]⟩]⟩]
+example : (whyNot w3Prog w2Base [("dr", [[.i64 1]])] "p" [.i32 1]).map (truthful w3Prog w2Base [("dr", [[.i64 1]])] "p" [.i32 1]) = some true := by decide
 
-theorem C23_refuted_neg_invisible : ¬ C23_statement := by
-  intro h
-  have := h w3Prog w2Base [("dr", [[.i64 1]])] "p" [.i32 1]
-    [{ idx := 0, ruleIdx := 1, bindings := [("X", .i32 1)], facts := [("f", [.i64 1], .edb)], blocker := none }]
-    (by decide) (by decide) (by decide)
-  revert this
-  decide
-
-/-- **C23_partial.** The excluded inputs are named by decidable predicates on the clauses of the
+/-- **C23_partial.** The excluded inputs are named by one decidable predicate on the clauses of the
     queried relation: `Rule.noChoice` (every variable of every positive body atom occurs in the head, so
-    no positive atom has to choose a binding — excludes `greedy_first_match`), `Rule.baseOnly` (all body
-    atoms, positive or negated, are over relations without rules — excludes `derived_atom_invisible` and
-    `neg_derived_invisible`), `Rule.plainVars` (no head variable is spelled `_placeholder_…`). `M` is any
-    derived data that has no tuples for relations without rules (true of `pmEval`'s result and of the
-    engine's). Then the explanation `.why_not` gives is truthful, for every program, base and target. -/
+    no positive atom has to choose a binding — this excludes exactly `greedy_first_match`); plus
+    well-formedness (supported literals, no head variable spelled `_placeholder_…`). Body atoms may be over
+    derived relations and negation may be over derived relations: the explanation is judged in the world
+    `(base, M)` whose `M` is the derived data the handler hands to `explain_why_not`. Then the explanation
+    `.why_not` gives is truthful, for every program, base, derived data and target. -/
 theorem C23_partial (prog : Program) (base M : DB) (rel : String) (target : Tuple) (expl : List ClauseExpl)
-    (hM : ∀ r, hasRulesFor prog r = false → M.get r = [])
-    (hcl : ∀ r ∈ prog, r.head.rel = rel → r.noChoice = true ∧ r.baseOnly prog = true ∧ r.plainVars = true)
-    (h : whyNot prog base rel target = some expl) :
+    (hcl : ∀ r ∈ prog, r.head.rel = rel → r.noChoice = true ∧ r.body.all Lit.supported = true ∧ r.plainVars = true)
+    (h : whyNot prog base M rel target = some expl) :
     truthful prog base M rel target expl = true := by
   unfold whyNot explainWhyNot at h
   split at h
   · cases h
   · simp only [Option.some.injEq] at h
     subst h
-    have hg : ∀ r ∈ prog.filter (fun r => r.head.rel == rel), r.noChoice = true ∧ r.baseOnly prog = true ∧ r.plainVars = true := by
+    have hg : ∀ r ∈ prog.filter (fun r => r.head.rel == rel), r.noChoice = true ∧ r.body.all Lit.supported = true ∧ r.plainVars = true := by
       intro r hr
       rw [List.mem_filter] at hr
       exact hcl r hr.1 (by simpa using hr.2)
-    obtain ⟨e1, e2⟩ := explainClauses_exact prog base M hM
-      { rules := prog, base := base, derived := none } rfl rfl target _ 0 hg
+    obtain ⟨e1, e2⟩ := explainClauses_exact base M
+      { rules := prog, base := base, derived := some M } rfl rfl target _ 0 hg
     unfold truthful
     simp only [Ctx.rulesFor]
     split
@@ -163,23 +146,18 @@ theorem C23_partial (prog : Program) (base M : DB) (rel : String) (target : Tupl
     · rename_i hf
       exact e2 (by simpa using hf)
 
-/-- the hypotheses of `C23_partial` are met by a non-trivial program: a clause with a join on head
-    variables, a negated stored atom with an existential position and a comparison; `r(2,3)` is explained
-    truthfully (`e(2,3)` matches, `!f(3)` is blocked by the stored `f(3)`). -/
+/-- the hypotheses of `C23_partial` are met by a non-trivial two-level program: a clause with a join on
+    head variables over a *derived* relation, a negated *derived* atom and a comparison; `r(2,3)` is
+    explained truthfully (`d(2,3)` matches, `!dr(3)` is blocked by the derived `dr(3)`). -/
 def pProg : Program :=
-  [⟨⟨"r", [.var "X", .var "Y"]⟩, [.pos ⟨"e", [.var "X", .var "Y"]⟩, .neg ⟨"f", [.var "Y"]⟩, .cmp (.var "X") .lt (.var "Y")]⟩]
+  [⟨⟨"d", [.var "X", .var "Y"]⟩, [.pos ⟨"e", [.var "X", .var "Y"]⟩]⟩,
+   ⟨⟨"dr", [.var "Y"]⟩, [.pos ⟨"f", [.var "Y"]⟩]⟩,
+   ⟨⟨"r", [.var "X", .var "Y"]⟩, [.pos ⟨"d", [.var "X", .var "Y"]⟩, .neg ⟨"dr", [.var "Y"]⟩, .cmp (.var "X") .lt (.var "Y")]⟩]
 def pBase : DB := [("e", [[.i64 1, .i64 2], [.i64 2, .i64 3]]), ("f", [[.i64 3]])]
-example : truthful pProg pBase [("r", [[.i64 1, .i64 2]])] "r" [.i32 2, .i32 3]
-    [{ idx := 0, ruleIdx := 0, bindings := [("Y", .i32 3), ("X", .i32 2)], facts := [("e", [.i64 2, .i64 3], .edb)],
-       blocker := some (.negSucceeded 1 "f" [.i64 3]) }] = true :=
-  C23_partial pProg pBase _ "r" [.i32 2, .i32 3] _
-    (by
-      intro r hr
-      have hne : (r == "r") = false := by
-        cases h : (r == "r") with
-        | false => rfl
-        | true => rw [beq_iff_eq] at h; subst h; simp [hasRulesFor, pProg] at hr
-      simp [DB.get, List.lookup, hne])
-    (by decide) (by decide)
+def pM : DB := [("d", [[.i64 1, .i64 2], [.i64 2, .i64 3]]), ("dr", [[.i64 3]]), ("r", [[.i64 1, .i64 2]])]
+example : truthful pProg pBase pM "r" [.i32 2, .i32 3]
+    [{ idx := 0, ruleIdx := 2, bindings := [("Y", .i32 3), ("X", .i32 2)], facts := [("d", [.i64 2, .i64 3], .derived)],
+       blocker := some (.negSucceeded 1 "dr" [.i64 3]) }] = true :=
+  C23_partial pProg pBase pM "r" [.i32 2, .i32 3] _ (by decide) (by decide)
 
 end ILV.Props.C23
